@@ -1476,3 +1476,7 @@ mod test {
         );
     }
 }
+
+#[cfg(all(test, feature = "verif-ve"))]
+#[path = "/verif/harness/sequencer/vote_extension.rs"]
+mod verif;
